@@ -168,11 +168,23 @@ def _attribute(d, lines, gen_file):
             ln = sp["line_start"]
             if sp.get("file") and os.path.basename(sp["file"]) != gen_file:
                 continue
+            site = lines[ln - 1] if 1 <= ln <= len(lines) else None
+            suffix = "~hint"
+            if site is not None and site.origin[0] == "repo":
+                # the call is repository code.  A precondition of a std function (slice index, unwrap, ...) that may
+                # fail is a possible panic: a safety obligation of that line.  A precondition of a unit function /
+                # outlined callee is an obligation of the calling function in its own right (`~call`), not a proof step.
+                req = [s2 for s2 in d.spans if not s2["primary"]]
+                in_gen = [s2 for s2 in req if not s2.get("file") or os.path.basename(s2["file"]) == gen_file]
+                if not in_gen:
+                    d.kind, d.obligation = "safety", f"{site.origin[1]}:{site.origin[2]}"
+                    return
+                suffix = "~call"
             k = ln - 1
             while k >= 1 and ln - k < 600:
                 lab = lines[k - 1].label
                 if lab and not lab.startswith("VAC."):
-                    parts = [x if x.endswith("~hint") else x + "~hint" for x in lab.split(",")]
+                    parts = [x.replace("~hint", "") + suffix for x in lab.split(",")]
                     d.kind, d.obligation = "label", ",".join(parts)
                     return
                 k -= 1
